@@ -11,6 +11,7 @@ import TnVerif.Model.Automata
 import TnVerif.Model.Anova
 import TnVerif.Model.Dual
 import TnVerif.Model.Ortho
+import TnVerif.Model.Round
 /-
   Line-protocol driver (DESIGN §2.6).  One request per line on stdin, one answer per line on
   stdout.  Tokens are separated by blanks; numbers are integers or `p/q`.
@@ -315,6 +316,12 @@ def run (cmd : String) : PM String := do
         return "ok " ++ showTensor ((t2.atPair (leftOrthPair qm rm) mu).memo)
       else
         return "ok " ++ showTensor ((t2.atPair (rightOrthPair qm rm) (mu - 1)).memo)
+  | "rank_select" => do
+      let n ← pNat
+      let a ← pArr n
+      let d2 ← pQ
+      let rmax ← pNat
+      return s!"ok R {rankSelect (a.toList.map (·.v)) d2.v rmax}"
   | _ => throw s!"unknown command {cmd}"
 
 def handle (line : String) : String :=
